@@ -11,3 +11,12 @@ Definition guards (c : package * list modpath) : list bool := pkg_ok_conjuncts b
 
 Definition run (cases : list ((package * list modpath) * list N)) : list N :=
   report (list_eqb N.eqb) model guards cases.
+
+(* ---- the generator skeleton of the models sub-package vs the (projected) extracted skeleton of the real models/ *)
+From PG Require Import Model.GenModels.
+Definition model_models (c : modpath * spec) : package := gen_models_skeleton (fst c) (snd c).
+Definition guards_models (c : modpath * spec) : list bool :=
+  [pkg_ok_with builtin_names (model_models c) (models_order (fst c) (snd c));
+   acyclic_refs (snd c) && names_ok (fst c) (snd c)].
+Definition run_models (cases : list ((modpath * spec) * package)) : list N :=
+  report skel_equiv model_models guards_models cases.
